@@ -201,3 +201,7 @@ package compile
 //@   requires position_pending: fallible(op) ==> g_posfresh == 1
 //@   ghostmod g_posfresh
 //@   ensures ghost: g_posfresh == 0
+
+// ---- determinism and thread-compatibility (C03, C05): no function of the package writes a
+// package-level variable at run time (what one execution left there another would read)
+//@ globals_readonly [C03,C05] none
